@@ -160,6 +160,9 @@ type ruleSpec struct {
 	rewrite func(l *exprgen.Linted, w linter.Warning, body string) (orig, repl string, ok bool)
 	class   func(orig, repl string) string
 	weight  int // how many instances relative to the default (0 = 1)
+	// fixed: instances every run contains (the boundary questions of the matcher: how the literal 1 is matched,
+	// which operand forms count as $x), besides the sampled ones
+	fixed []string
 }
 
 var (
@@ -495,6 +498,9 @@ var ruleSpecs = append([]ruleSpec{
 		},
 		rewrite: fromQuickFix, class: classPurity},
 	{checker: "assignOp", kind: "stmts", weight: 5,
+		fixed: []string{"a = a + 0x1", "a = a - 01", "a = a + 0b1", "a = a + 1_0", "p = p + 1.0", "p = p + 1", "p = p - 0x1", "mf = mf + 1", "mf = mf - 1",
+			"w.avail = w.avail - 1", "w.avail = w.avail + 0x1", "a = a + cOne", "xs[a] = xs[a] + 0o1", "mi[0] = mi[0] - 1", "ma[1] = ma[1] + 1",
+			"a = (a + 1)", "a = a + (1)", "(a) = a + 1", "a = (a) + 1", "u = u + 1", "s = s + \"1\"", "a = a + 2 - 1", "xs[a+1] = xs[a+1] + 1", "xs[a+1] = xs[1+a] + 1"},
 		// every operator of the rule group, every operand type it can be applied to (int, uint, float64,
 		// string, defined string type, slice element), both operand orders
 		gen: func(p func(...string) string) string {
@@ -651,6 +657,12 @@ func runRules(meta *common.Meta, tier string, seed int64, outDir string) {
 		want := perRule
 		if sp.weight > 0 {
 			want *= sp.weight
+		}
+		for _, b := range sp.fixed {
+			if !seen[b] {
+				seen[b] = true
+				progs = append(progs, &ruleProg{fn: fmt.Sprintf("r%d", len(progs)), checker: sp.checker, kind: sp.kind, body: b})
+			}
 		}
 		for tries := 0; tries < want*6 && len(seen) < want; tries++ {
 			b := sp.gen(pick)
